@@ -871,7 +871,7 @@ func TestVerifC11(t *testing.T) {
 		rejected                          bool
 	}
 	srcDone := map[string]chan srcRes{}
-	for _, p := range [][3]string{{"VERIF_IN_SRC_PATH", "path", ""}, {"VERIF_IN_SRC_HTTP", "http", ""}, {"VERIF_IN_SRC_SELF", "path", "self"}} {
+	for _, p := range [][3]string{{"VERIF_IN_SRC_PATH", "path", ""}, {"VERIF_IN_SRC_HTTP", "http", ""}, {"VERIF_IN_SRC_CONSUL", "consul", ""}, {"VERIF_IN_SRC_SELF", "path", "self"}} {
 		if os.Getenv(p[0]) == "" {
 			continue
 		}
@@ -917,6 +917,8 @@ func TestVerifC11(t *testing.T) {
 			k := "path"
 			if env == "VERIF_IN_SRC_HTTP" {
 				k = "http"
+			} else if env == "VERIF_IN_SRC_CONSUL" {
+				k = "consul"
 			}
 			sum[k+"_cases"], sum[k+"_loads"], sum[k+"_evals"], sum[k+"_nontrivial"], sum[k+"_skipped"], sum[k+"_samples"] = r.cases, r.loads, r.evals, r.non, r.skipped, r.samples
 		}
